@@ -678,6 +678,16 @@ func OSCreate(name string) (*os.File, error) {
 	return os.Create(name)
 }
 
+// WatcherAdd replaces fsnotify's Watcher.Add: in simulation nothing is watched.
+//
+//go:norace
+func WatcherAdd(add func(string) error, dir string) error {
+	if active {
+		return nil
+	}
+	return add(dir)
+}
+
 var openFailLeft int
 
 // FailOpens makes the next n file creations of the HTTP handlers fail with
